@@ -1754,9 +1754,10 @@ class Engine:
       ln = z3.If(hi - lo < 0, 0, hi - lo)
       elem = lambda i: sv.mk_int(lo + i)
     else:
+      if isinstance(it, ast.Call) and isinstance(it.func, ast.Attribute) and it.func.attr == 'items' \
+          and not it.args:
+        return self.for_dict_items(s, st, idx, spec)
       c = self.ev(it, st)
-      if isinstance(it, ast.Call) and isinstance(it.func, ast.Attribute) and it.func.attr == 'items':
-        raise Unsupported('iteration over dict.items()')
       if not isinstance(c, V) or c.t.kind != 'list':
         raise Unsupported('for over %r at line %d' % (getattr(c, 't', c), s.lineno))
       if c.meta == 'empty':
@@ -1794,6 +1795,40 @@ class Engine:
     out.append((ex, NORMAL, None))
     return out
 
+  def for_dict_items(self, s, st, idx, spec):
+    """for k, v in d.items(): the visiting order and number of iterations are abstracted: the body is
+    executed for an arbitrary entry of d from an arbitrary state satisfying the invariant."""
+    tag = '[loop%d' % idx
+    invs = spec.get('inv', [])
+    d = self.ev(s.iter.func.value, st)
+    if not isinstance(d, V) or d.t.kind != 'dict':
+      raise Unsupported('items() of %r' % (getattr(d, 't', d),))
+    entry_env = dict(st.env)
+    for k, inv in enumerate(invs):
+      self.emit(st, 'loop-init', self.spec_formula(inv, st, old_env=entry_env), s, inv, tag='%s.inv%d]' % (tag, k))
+    written = self.written_names(s.body) | {x.id for x in ast.walk(s.target) if isinstance(x, ast.Name)}
+    h = st.copy()
+    self.havoc(written, h)
+    for inv in invs:
+      h.pc.append(self.spec_formula(inv, h, old_env=entry_env))
+    out = []
+    itst = h.copy()
+    key = sv.fresh(d.t.args[0], 'key')
+    itst.pc.append(z3.Select(sv.d_keys(d), key.z))
+    val = V(d.t.args[1], z3.Select(sv.d_vals(d), key.z))
+    self.assign(s.target, sv.mk_tuple([key, val]), itst)
+    for s2, oc, v_ in self.block(s.body, itst):
+      if oc in (NORMAL, CONTINUE):
+        for k, inv in enumerate(invs):
+          self.emit(s2, 'loop-preserved', self.spec_formula(inv, s2, old_env=entry_env), s, inv,
+                    tag='%s.inv%d]' % (tag, k))
+      elif oc == BREAK:
+        out.append((s2, NORMAL, None))
+      else:
+        out.append((s2, oc, v_))
+    out.append((h.copy(), NORMAL, None))
+    return out
+
   def s_Break(self, s, st):
     return [(st, BREAK, None)]
 
@@ -1823,6 +1858,9 @@ class Engine:
       st.env[p] = sv.const(t, p)
       self.wf(st, st.env[p])
     for key, ts in u.get('fields', {}).items():
+      st.env[key] = sv.const(self.ty(ts), key)
+      self.wf(st, st.env[key])
+    for key, ts in u.get('ghost_params', {}).items():
       st.env[key] = sv.const(self.ty(ts), key)
       self.wf(st, st.env[key])
     if u.get('yields'):
@@ -1930,7 +1968,10 @@ def replace_all(s, a, b):
   f = getattr(z3, 'ReplaceAll', None)
   if f is not None:
     return f(s, a, b)
-  raise Unsupported('str.replace (no replace_all in this z3)')
+  # str.replace(a, b): uninterpreted where the pattern occurs, the identity where it does not
+  # (assumed property of str.replace; the character-level behaviour is decided by vlib/strhom.py)
+  g = uf('str_replace', [z3.StringSort()] * 3, z3.StringSort())
+  return z3.If(z3.Contains(s, a), g(s, a, b), s)
 
 
 def dotted_name(n):
